@@ -49,7 +49,7 @@ def job_vary(ses, proto, what, fkind, akind, fkind2=None, akind2=None):
         for sd, rd in D:
             if not is_ok(rd): continue
             any_accept = True
-            h = honest_for([se.log], inp); mark_secret_mac_keys(h, list(sd.pc), inp.K)
+            h = honest_for([se.log], inp); mark_secret_mac_keys(h, list(sd.pc), inp.K); with_compares(h, sd.log)
             if public: h['honest_pks'] = [inp.PK]
             q = list(sd.pc) + [differs]
             if what == 'key' and public:
